@@ -1093,6 +1093,24 @@ fn evaluate(plan: &PlanB, kernel: &Arc<Kernel>, sh: &Sh, sent_at_ns: &[u64], _en
                 Some(RouteKind::ForwardNowhere) => {
                     /* undocumented outcome: only liveness is judged */
                     res.probe("C05.query_under_forward_route_without_servers");
+                    {
+                        /* what the route's answer is the manual does not say, but it is still
+                         * the route with the longest matching suffix: the name belongs to no
+                         * other route's upstream and to no forge-nxdomain route */
+                        let lname = q.qname.lower().to_text();
+                        let unique = plan.queries.iter().filter(|o| o.qname.lower().to_text() == lname).count() == 1;
+                        let contacted: BTreeSet<usize> = g.contact.get(&lname).cloned().unwrap_or_default();
+                        if unique && !contacted.is_empty() {
+                            res.violate("C15", "C15.name_under_route_without_servers_sent_upstream", format!("{} belongs to a forward route that lists no servers but reached upstreams {:?}; routes {:?}", q.qname.to_text(), contacted, plan.routes), qi);
+                        }
+                        for (_, bytes, _, _) in &responses {
+                            if let Ok(d) = decode(bytes) {
+                                if d.msg.rcode() == 3 {
+                                    res.violate("C15", "C15.wrong_outcome.nxdomain_under_route_without_servers", format!("{} belongs to a forward route that lists no servers but got NXDOMAIN; routes {:?}", q.qname.to_text(), plan.routes), qi);
+                                }
+                            }
+                        }
+                    }
                     if q.liveness_probe && !g_responded(&g, &outs, q, qi) {
                         res.violate("C05", if q.tcp { "C05.dns_service_stopped_answering.tcp" } else { "C05.dns_service_stopped_answering.udp" }, format!("well-formed query {} under a forward route that lists no servers got no response at all", q.qname.to_text()), qi);
                     }
@@ -1141,7 +1159,7 @@ fn evaluate(plan: &PlanB, kernel: &Arc<Kernel>, sh: &Sh, sent_at_ns: &[u64], _en
         if q.liveness_probe {
             res.probe("C05.liveness_probe_after_hostile_input");
             if responses.is_empty() {
-                res.violate("C05", if q.tcp { "C05.dns_service_stopped_answering.tcp" } else { "C05.dns_service_stopped_answering.udp" }, format!("well-formed query {} ({} from {}) sent 1.5 s after a hostile input got no response", q.qname.to_text(), if q.tcp { "TCP" } else { "UDP" }, q.src_ip), qi);
+                res.violate("C05", if q.tcp { "C05.dns_service_stopped_answering.tcp" } else { "C05.dns_service_stopped_answering.udp" }, format!("well-formed query {} ({} from {}) sent {} got no response", q.qname.to_text(), if q.tcp { "TCP" } else { "UDP" }, q.src_ip, if plan.shape == "cookie" { "after a day and a half of uptime" } else { "1.5 s after a hostile input" }), qi);
             }
         }
         if responses.is_empty() && injected_send_errors > 0 {
@@ -1507,6 +1525,9 @@ fn evaluate(plan: &PlanB, kernel: &Arc<Kernel>, sh: &Sh, sent_at_ns: &[u64], _en
                             }
                             deepest = deepest.max(hops);
                         }
+                        if m.answer.iter().chain(m.authority.iter()).chain(m.additional.iter()).any(|r| r.name.0.iter().any(|l| l.len() >= 62)) {
+                            res.probe("C14.label_of_62_or_63_octets_relayed");
+                        }
                         if deepest > 10 {
                             res.probe("C14.name_expanded_through_more_than_10_pointers_in_a_row");
                         }
@@ -1574,7 +1595,7 @@ fn evaluate(plan: &PlanB, kernel: &Arc<Kernel>, sh: &Sh, sent_at_ns: &[u64], _en
                 res.violate(
                     "C16",
                     if crowd { "C16.fresh_source_got_no_refused.while_many_other_sources_flood" } else if earlier.is_some() { "C16.quiet_source_got_no_refused" } else { "C16.fresh_source_got_no_refused" },
-                    format!("{} sent a query that is refused by policy at {} ms; its previous query was at {:?} ms; no REFUSED response was sent", q.src_ip, q.at_ms, earlier),
+                    format!("{} sent a query that is refused (by policy, or by its upstream) at {} ms; its previous query was at {:?} ms; no REFUSED response was sent", q.src_ip, q.at_ms, earlier),
                     qi,
                 );
             }
